@@ -255,3 +255,8 @@ contract('C02', 'requantiser_components_share_the_schedule', functions=[_C9.CQ +
 # "samples are exactly the requantised PFB output": the requantisation itself - round-half-even of the rescaled value clipped to the whole
 # signed b-bit range [-2^(b-1), 2^(b-1)-1], for 2..8 bits - is C09's quantize_real contract, discharged again here
 contract('C02', 'requantisation_formula_and_full_code_range', functions=[_C9.Q + ':quantize_real'])(_C9.quantize_real)
+# array sources: between two requests each antenna keeps a view of the background stream's buffer; the next request (the next sub-block) must
+# not overwrite that buffer - C15's ownership contract, discharged again here because "no sample lost or re-ordered across sub-block
+# boundaries" depends on it for delayed antennas
+from . import c15 as _C15
+contract('C02', 'array_background_caches_survive_the_next_request', functions=[_C15.MA + '.get_samples', 'setigen.voltage.data_stream:DataStream._update_t'])(_C15.later_request_ownership)
